@@ -45,7 +45,7 @@ func executorScope(p *Program) []*ssa.Function {
 		if f == nil || seen[f] || f.Blocks == nil || fnPkgPath(f) != pkgRedis {
 			return
 		}
-		if fullFuncName(f) == nExecuteCmd {
+		if p.isDispatcher(f) {
 			return
 		}
 		seen[f] = true
@@ -398,7 +398,7 @@ func ruleOptionalTails(c *Ctx, x *extractor, scope []*ssa.Function) {
 					}
 					ord++
 					n++
-					key := fmt.Sprintf("%s/tolerates-end#%d", c.P.key(f), ord)
+					key := fmt.Sprintf("%s/tolerates-end#%d", roleKey(c.P, f), ord)
 					found[key] = true
 					if why, ok := allowed[key]; ok {
 						c.ok(rid, key, c.P.instrPos(iff), "confirmed optional tail: "+why)
@@ -854,7 +854,7 @@ func ruleNoReadAfterHandler(c *Ctx, x *extractor, scope []*ssa.Function) {
 			if call.Common().IsInvoke() && isHandlerIface(call.Common().Value.Type().String()) {
 				handlers = append(handlers, call)
 			}
-			if _, _, isRead := x.readWeight(call, cur); isRead && calleeName(call.Common()) != nExecuteCmd {
+			if _, _, isRead := x.readWeight(call, cur); isRead && !c.P.isDispatcherCall(call.Common()) {
 				reads = append(reads, call)
 			}
 		})
@@ -1039,4 +1039,19 @@ func laterHalf(x *extractor, r *ssa.Call, cur ssa.Value) bool {
 	}
 	walk(r.Block(), idx-1)
 	return bad
+}
+
+// roleKey names a function for the inventory table independently of its identifier: executors by
+// their command, argument helpers by the types they return (unique per helper kind).
+func roleKey(p *Program, f *ssa.Function) string {
+	k := p.key(f)
+	if strings.HasPrefix(k, "executor:") {
+		return k
+	}
+	res := f.Signature.Results()
+	var ts []string
+	for i := 0; i < res.Len(); i++ {
+		ts = append(ts, typeName(res.At(i).Type()))
+	}
+	return "helper->(" + strings.Join(ts, ",") + ")"
 }
